@@ -279,7 +279,7 @@ def subchecks(tier):
             prop,
             quick=4000,
             thorough=600000,
-            floors={"crosses_transition": 0.03, "starts_in_rampdown": 0.1, "cont": 0.205, "ideal": 0.08, "step": 0.051, "integer_arguments": 0.1, "period_changes_between_calls": 0.1},
+            floors={"crosses_transition": 0.03, "starts_in_rampdown": 0.1, "cont": 0.205, "ideal": 0.08, "step": 0.051, "integer_arguments": 0.1, "period_changes_between_calls": 0.083},
         )
     ]
 
